@@ -1,5 +1,6 @@
 import Pearl.Proofs.LtsLemmas
 import Pearl.Proofs.ConcRW
+import Pearl.Proofs.ConcRW2
 /-
 C08 — deadlock clause, the append critical section, and (second half of the file) the read side:
 freshness, no lost acknowledged write, equality with the sequential model, linearization points.
@@ -41,7 +42,15 @@ the atomic steps of the code over the L2 `Store`, with rotation and index dumps;
 * `real_time_order`, `linearizable_partial` : explicit linearization points; reads atomic when nobody deletes;
 * `blob_lock_exclusive`, `client_progress`, `client_steps_bounded` : locks of the data path, no deadlock;
 * FALSE in general, with witnesses: `read_not_linearizable_with_delete`, `duplicate_check_race`,
-  `delete_phase_race`.
+  `delete_phase_race`, `read_not_regular_with_delete`.
+* `read_interval` (`contains_interval`, `skipped_write_interval`), `read_upper_bound` : the window of a read under concurrent deletes: each component look-up is
+  the `Spec` answer of its component at its own instant, the answer is the `Spec` answer of the hybrid history,
+  rank sandwich between the stores of the two instants;
+* `crossed_deletes_observational` (`_spec`, `delete_phase_race_observational`) : crossed delete phases are
+  observationally one of the two sequential orders, for all stores, keys, timestamps, flags;
+* `read_all_concurrent` : provenance and freshness of every version `read_all` lists, two-phase;
+* `landed_ranges_disjoint`, `acked_range_never_rewritten`, `ranges_follow_layout`, `acked_range_at_place` : the product `Pearl.ConcBytes`
+  with the byte ranges of `Pearl.Append` and the file layout of `Pearl.Fs`.
 -/
 namespace Pearl
 namespace C08
@@ -932,27 +941,820 @@ example : (ConcRW.runSched rwSchedOld (ConcRW.init rwSt rwOps)).map
 example : ((ConcRW.runSched [.step 0, .step 0, .step 0, .step 1, .step 1] (ConcRW.init (Store.init true) dupOps)).bind
       (fun s => (ConcRW.fire (.step 1) s).map (fun _ => ()))) = none := by decide
 
+/-! ## the read side, second batch: the window of a read, crossed deletes, byte ranges -/
+
+/-- the window of a two-phase look-up recorded by the invariant `ConcRW.RInv` (`read`, `contains`, the duplicate
+    check of `write`), in terms of reachable states; `read_interval` is the headline instance -/
+theorem lookup_window {st : Store} {ops : List COp} {s : CState} (hwf : st.WF)
+    (ha : ∃ a, st.active = some a) (hr : ConcRW.Reach (ConcRW.init st ops) s)
+    {i : Nat} {op : COp} {res : ReadResult Rec} {fin : Option Resp}
+    (h2 : ConcRW.TwoPh st s.trace i op res fin) :
+    ∃ (l1 l2 past : List Ev) (s1 s2 : CState) (a1 a2 : Blob),
+      s.trace = l1 ++ (l2 ++ Ev.look i :: past) ∧ Ev.inv i op ∈ past ∧ (∀ r, fin = some r → Ev.res i r ∈ l1) ∧
+      Ev.rot ∉ l2 ∧
+      ConcRW.Reach (ConcRW.init st ops) s1 ∧ ConcRW.Reach s1 s2 ∧ ConcRW.Reach s2 s ∧
+      s1.trace = past ∧ s2.trace = l2 ++ Ev.look i :: past ∧
+      s1.store.active = some a1 ∧ s2.store.active = some a2 ∧ a2.id = a1.id ∧ a1.recs <+: a2.recs ∧
+      res = (ConcRW.lookActive s1.store op.key).latest (ConcRW.lookClosed s2.store op.key .notFound) ∧
+      ConcRW.lookActive s1.store op.key = (Spec.latest [(a1.id, a1.recs)] op.key).map (·.r) ∧
+      ConcRW.lookClosed s2.store op.key .notFound =
+        (Spec.latest (s2.store.closed.map Blob.hist) op.key).map (·.r) ∧
+      res = (Spec.latest ((s2.store.closed ++ [a1]).map Blob.hist) op.key).map (·.r) ∧
+      (∀ p ∈ History.positioned s1.store.history, p.r.key = op.key →
+        ∃ q, Wit s2.store op.key res q ∧ rankLe q p = true) ∧
+      (res ≠ .notFound → ∃ q top, Wit s2.store op.key res q ∧
+        Wit s2.store op.key (s2.store.read op.key none) top ∧ rankLe top q = true) := by
+  obtain ⟨a, ha⟩ := ha
+  obtain ⟨l1, l2, past, a1, a2, h⟩ := h2
+  have h0 : (ConcRW.init st ops).trace = [] := rfl
+  obtain ⟨s2, r2, r2s, t2⟩ := ConcRW.reach_suffix h0 hr l1 _ h.split
+  obtain ⟨s1, r1, r12, t1⟩ := ConcRW.reach_suffix h0 r2 (l2 ++ [Ev.look i]) past (by rw [t2]; simp)
+  have e1 : s1.store = ConcRW.replay st past := by rw [(ConcRW.tinv_reach hwf ha r1).2.replay, t1]
+  have e2 : s2.store = ConcRW.replay st (l2 ++ Ev.look i :: past) := by
+    rw [(ConcRW.tinv_reach hwf ha r2).2.replay, t2]
+  have hwf2 : s2.store.WF := (ConcRW.tinv_reach hwf ha r2).1.wf
+  have hres := h.resOK
+  rw [← e1, ← e2] at hres
+  refine ⟨l1, l2, past, s1, s2, a1, a2, h.split, h.inv, h.fin, h.noRot, r1, r12, r2s, t1, t2,
+    by rw [e1]; exact h.act1, by rw [e2]; exact h.act2, h.ble.1, h.ble.2, by rw [e1, e2]; exact h.merged,
+    ConcRW.lookActive_eq_spec (by rw [e1]; exact h.act1) op.key, ConcRW.lookClosed_eq_spec hwf2 op.key,
+    by rw [e2]; exact h.hybrid, hres.2, ?_⟩
+  intro hne
+  obtain ⟨q, hq⟩ := hres.1 hne
+  obtain ⟨top, ht, hle⟩ := ConcRW.top_bound hwf2 hq.1 hq.2.1
+  exact ⟨q, top, hq, ht, hle q hq.1 hq.2.1⟩
+
+/-- C08/R6 (`read_interval`; deletes, writes, dumps and other reads running concurrently).  A completed `read k`
+    that answered `res` has, in the trace, its invocation, then its look into the active blob (INSTANT 1, state
+    `s1`), then — with no rotation in between (`a2` is the same blob as `a1`, grown) — its look into the closed blobs
+    (INSTANT 2, state `s2`), then its response; `s1`, `s2` are reachable states on the way to `s`, and
+
+    * each COMPONENT look-up is the `Spec` answer of that component at its own instant: the active blob at instant
+      1, the closed blobs at instant 2, merged by `ReadResult::latest` (the later one wins only with a strictly
+      greater timestamp);
+    * the answer is the `Spec` answer on the HYBRID history "closed blobs of instant 2 + active blob of instant 1";
+    * RANK SANDWICH: the answer classifies a record of the store of instant 2 that is ranked at least as high as
+      every record of the key in the store of instant 1 (this strengthens `read_fresh`: instant 1 is not earlier
+      than the invocation) and no higher than the first-ranked record of the store of instant 2.
+
+    The answer need NOT be the `Spec` answer of any single store between invocation and response:
+    `read_not_regular_with_delete`. -/
+theorem read_interval {st : Store} {ops : List COp} {s : CState} (hwf : st.WF)
+    (ha : ∃ a, st.active = some a) (hr : ConcRW.Reach (ConcRW.init st ops) s)
+    {i : Nat} {c : Client} {k : Key} {res : ReadResult Rec}
+    (hc : s.clients[i]? = some c) (hop : c.op = .read k) (hd : c.pc = .done (.value res)) :
+    ∃ (l1 l2 past : List Ev) (s1 s2 : CState) (a1 a2 : Blob),
+      s.trace = l1 ++ (l2 ++ Ev.look i :: past) ∧ Ev.inv i (.read k) ∈ past ∧ Ev.res i (.value res) ∈ l1 ∧
+      Ev.rot ∉ l2 ∧
+      ConcRW.Reach (ConcRW.init st ops) s1 ∧ ConcRW.Reach s1 s2 ∧ ConcRW.Reach s2 s ∧
+      s1.trace = past ∧ s2.trace = l2 ++ Ev.look i :: past ∧
+      s1.store.active = some a1 ∧ s2.store.active = some a2 ∧ a2.id = a1.id ∧ a1.recs <+: a2.recs ∧
+      res = (ConcRW.lookActive s1.store k).latest (ConcRW.lookClosed s2.store k .notFound) ∧
+      ConcRW.lookActive s1.store k = (Spec.latest [(a1.id, a1.recs)] k).map (·.r) ∧
+      ConcRW.lookClosed s2.store k .notFound = (Spec.latest (s2.store.closed.map Blob.hist) k).map (·.r) ∧
+      res = (Spec.latest ((s2.store.closed ++ [a1]).map Blob.hist) k).map (·.r) ∧
+      (∀ p ∈ History.positioned s1.store.history, p.r.key = k →
+        ∃ q, Wit s2.store k res q ∧ rankLe q p = true) ∧
+      (res ≠ .notFound → ∃ q top, Wit s2.store k res q ∧ Wit s2.store k (s2.store.read k none) top ∧
+        rankLe top q = true) := by
+  obtain ⟨a, ha'⟩ := ha
+  obtain ⟨_, h2⟩ := ConcRW.rinv_reach hwf ha' hr i c hc
+  unfold ConcRW.RCInv2 at h2
+  rw [hd, hop] at h2
+  obtain ⟨l1, l2, past, s1, s2, a1, a2, g1, g2, g3, g⟩ :=
+    lookup_window hwf ⟨a, ha'⟩ hr (op := .read k) (fin := some (.value res)) h2
+  exact ⟨l1, l2, past, s1, s2, a1, a2, g1, g2, g3 _ rfl, g⟩
+
+/-- the same window for `contains k`: its answer is the timestamp form of a look-up `res` with that window -/
+theorem contains_interval {st : Store} {ops : List COp} {s : CState} (hwf : st.WF)
+    (ha : ∃ a, st.active = some a) (hr : ConcRW.Reach (ConcRW.init st ops) s)
+    {i : Nat} {c : Client} {k : Key} {x : ReadResult Nat}
+    (hc : s.clients[i]? = some c) (hop : c.op = .contains k) (hd : c.pc = .done (.has x)) :
+    ∃ (res : ReadResult Rec) (l1 l2 past : List Ev) (s1 s2 : CState) (a1 : Blob),
+      x = res.map (·.ts) ∧
+      s.trace = l1 ++ (l2 ++ Ev.look i :: past) ∧ Ev.inv i (.contains k) ∈ past ∧ Ev.res i (.has x) ∈ l1 ∧
+      Ev.rot ∉ l2 ∧ ConcRW.Reach (ConcRW.init st ops) s1 ∧ ConcRW.Reach s1 s2 ∧ ConcRW.Reach s2 s ∧
+      s1.trace = past ∧ s2.trace = l2 ++ Ev.look i :: past ∧ s1.store.active = some a1 ∧
+      res = (ConcRW.lookActive s1.store k).latest (ConcRW.lookClosed s2.store k .notFound) ∧
+      res = (Spec.latest ((s2.store.closed ++ [a1]).map Blob.hist) k).map (·.r) ∧
+      (∀ p ∈ History.positioned s1.store.history, p.r.key = k →
+        ∃ q, Wit s2.store k res q ∧ rankLe q p = true) := by
+  obtain ⟨a, ha'⟩ := ha
+  obtain ⟨_, h2⟩ := ConcRW.rinv_reach hwf ha' hr i c hc
+  unfold ConcRW.RCInv2 at h2
+  rw [hd, hop] at h2
+  obtain ⟨res, hx, h2⟩ : ∃ res : ReadResult Rec, x = res.map (·.ts) ∧
+      ConcRW.TwoPh st s.trace i (.contains k) res (some (.has x)) := h2
+  obtain ⟨l1, l2, past, s1, s2, a1, a2, g1, g2, g3, g4, g5, g6, g7, g8, g9, g10, _, _, _, g14, _, _, g17, g18, _⟩ :=
+    lookup_window hwf ⟨a, ha'⟩ hr h2
+  exact ⟨res, l1, l2, past, s1, s2, a1, hx, g1, g2, g3 _ rfl, g4, g5, g6, g7, g8, g9, g10, g14, g17, g18⟩
+
+/-- … and for a `write k ts d` acknowledged as a duplicate (`allow_duplicates = false`): the check that skipped it
+    found a live record `x`, by a look-up with that window -/
+theorem skipped_write_interval {st : Store} {ops : List COp} {s : CState} (hwf : st.WF)
+    (ha : ∃ a, st.active = some a) (hr : ConcRW.Reach (ConcRW.init st ops) s)
+    {i : Nat} {c : Client} {k : Key} {ts : Nat} {d : Data}
+    (hc : s.clients[i]? = some c) (hop : c.op = .write k ts d) (hd : c.pc = .done (.wrote none)) :
+    ∃ (x : Rec) (l1 l2 past : List Ev) (s1 s2 : CState) (a1 : Blob),
+      s.trace = l1 ++ (l2 ++ Ev.look i :: past) ∧ Ev.inv i (.write k ts d) ∈ past ∧
+      Ev.res i (.wrote none) ∈ l1 ∧ Ev.rot ∉ l2 ∧
+      ConcRW.Reach (ConcRW.init st ops) s1 ∧ ConcRW.Reach s1 s2 ∧ ConcRW.Reach s2 s ∧
+      s1.trace = past ∧ s2.trace = l2 ++ Ev.look i :: past ∧ s1.store.active = some a1 ∧
+      ReadResult.found x = (ConcRW.lookActive s1.store k).latest (ConcRW.lookClosed s2.store k .notFound) ∧
+      ReadResult.found x = (Spec.latest ((s2.store.closed ++ [a1]).map Blob.hist) k).map (·.r) := by
+  obtain ⟨a, ha'⟩ := ha
+  obtain ⟨_, h2⟩ := ConcRW.rinv_reach hwf ha' hr i c hc
+  unfold ConcRW.RCInv2 at h2
+  rw [hd, hop] at h2
+  obtain ⟨res, hf, h2⟩ : ∃ res : ReadResult Rec, res.isFound = true ∧
+      ConcRW.TwoPh st s.trace i (.write k ts d) res (some (.wrote none)) := h2
+  obtain ⟨l1, l2, past, s1, s2, a1, a2, g1, g2, g3, g4, g5, g6, g7, g8, g9, g10, _, _, _, g14, _, _, g17, _, _⟩ :=
+    lookup_window hwf ⟨a, ha'⟩ hr h2
+  cases res with
+  | found x => exact ⟨x, l1, l2, past, s1, s2, a1, g1, g2, g3 _ rfl, g4, g5, g6, g7, g8, g9, g10, g14, g17⟩
+  | deleted t => simp [ReadResult.isFound] at hf
+  | notFound => simp [ReadResult.isFound] at hf
+
+/-- C08/R6a (`read_upper_bound`): the matching upper bound to `read_fresh`, at the RESPONSE and ever after: in
+    every state `s'` from the read's completion on, the record the answer classifies (`Found x`: `x` itself, live;
+    `Deleted t`: a marker with timestamp `t`) is in the store and is ranked no higher than the first-ranked record of
+    the key there — the one a sequential `read` on that store classifies, which bounds every record of the key.
+    An answer `NotFound` means the store held no record of the key when the read was invoked. -/
+theorem read_upper_bound {st : Store} {ops : List COp} {s : CState} (hwf : st.WF)
+    (ha : ∃ a, st.active = some a) (hr : ConcRW.Reach (ConcRW.init st ops) s)
+    {i : Nat} {c : Client} {k : Key} {resp : Resp}
+    (hc : s.clients[i]? = some c) (hop : c.op = .read k) (hd : c.pc = .done resp) :
+    ∃ res, resp = .value res ∧
+      (res ≠ .notFound → ∃ q, Wit s.store k res q ∧ ∀ s', ConcRW.Reach s s' →
+        ∃ top, Wit s'.store k res q ∧ Wit s'.store k (s'.store.read k none) top ∧ rankLe top q = true ∧
+          ∀ p ∈ History.positioned s'.store.history, p.r.key = k → rankLe top p = true) ∧
+      (res = .notFound → ∀ p ∈ History.positioned c.born.history, p.r.key ≠ k) := by
+  obtain ⟨a, ha⟩ := ha
+  obtain ⟨hi, ht⟩ := ConcRW.tinv_reach hwf ha hr
+  have hok := ConcRW.done_respOK hi hc hd
+  cases resp with
+  | value res =>
+    obtain ⟨_, hres, _⟩ := hok
+    rw [hop] at hres
+    refine ⟨res, rfl, fun hne => ?_, ?_⟩
+    · obtain ⟨q, hq⟩ := hres.1 hne
+      refine ⟨q, hq, fun s' hr' => ?_⟩
+      have hq' : Wit s'.store k res q := hq.mono (ConcRW.reach_sub hi hr')
+      have hwf' := (ConcRW.tinv_reach hwf ha (ConcRW.reach_trans hr hr')).1.wf
+      obtain ⟨top, h1, h2⟩ := ConcRW.top_bound hwf' hq'.1 hq'.2.1
+      exact ⟨top, hq', h1, h2 q hq'.1 hq'.2.1, h2⟩
+    · rintro rfl p hp hk
+      obtain ⟨q, hq, _⟩ := hres.2 p hp hk
+      exact hq.2.2
+  | torn => exact absurd hok id
+  | has x => obtain ⟨⟨k', hk'⟩, _⟩ := hok; rw [hop] at hk'; cases hk'
+  | wrote p =>
+    cases p with
+    | none => obtain ⟨⟨k', ts, d, hk'⟩, _⟩ := hok; rw [hop] at hk'; cases hk'
+    | some p => obtain ⟨_, k', ts, d, hk', _⟩ := hok; rw [hop] at hk'; cases hk'
+  | deleted n => obtain ⟨k', ts, oip, hk'⟩ := hok; rw [hop] at hk'; cases hk'
+
+/-- the stores a schedule passes through, the starting one included -/
+def storesAlong : List ConcRW.Label → CState → List Store
+  | [], s => [s.store]
+  | l :: ls, s => s.store :: match ConcRW.fire l s with
+    | some s' => storesAlong ls s'
+    | none => []
+
+/-- A read is NOT a regular register when deletes run concurrently (the schedule of
+    `read_not_linearizable_with_delete`): the read answers `Deleted(5)`, and NO store between its invocation and its
+    response — none of the 23 stores the schedule passes through, first and last included — has `Deleted(5)` as
+    its sequential / `Spec` answer for the key (they answer `Found(ts 4)` and, from the write's push on,
+    `Found(ts 10)`).  What holds is `read_interval`: active blob at instant 1 (`Found(ts 4)`), closed blobs at
+    instant 2 (`Deleted(5)`), merged. -/
+theorem read_not_regular_with_delete :
+    ∃ s, ConcRW.runSched nlSched (ConcRW.init nlSt nlOps) = some s ∧
+      ConcRW.respOf s 0 = some (.value (.deleted 5)) ∧
+      (storesAlong nlSched (ConcRW.init nlSt nlOps)).length = nlSched.length + 1 ∧
+      (storesAlong nlSched (ConcRW.init nlSt nlOps)).getLast?.map (·.history) = some s.store.history ∧
+      ∀ st' ∈ storesAlong nlSched (ConcRW.init nlSt nlOps), st'.read 1 none ≠ .deleted 5 :=
+  ⟨_, rfl, by decide, by decide, by decide, by decide⟩
+
+-- non-vacuity of `read_interval` on that run: the trace, instant 1 (after 2 steps: the active blob answers
+-- `Found(ts 4)`), instant 2 (after 18 steps: the closed blob answers `Deleted(5)`, which wins with 5 > 4)
+theorem nlSt_ok : nlSt.WF ∧ ∃ a, nlSt.active = some a := ⟨run_WF true _, _, rfl⟩
+example : (ConcRW.runSched nlSched (ConcRW.init nlSt nlOps)).map (fun s => s.trace.reverse) =
+    some [.inv 0 (.read 1), .look 0, .inv 1 (.write 1 10 ⟨3, 3⟩), .push 1 (wrec 1 10 ⟨3, 3⟩),
+      .res 1 (.wrote (some ⟨wrec 1 10 ⟨3, 3⟩, 1, 1⟩)), .inv 2 (.delete 1 5 false), .delA 2 1 5 false, .delC 2 1 5,
+      .res 2 (.deleted 2), .res 0 (.value (.deleted 5))] := by decide
+example : (ConcRW.runSched (nlSched.take 2) (ConcRW.init nlSt nlOps)).map
+      (fun s => (s.trace, ConcRW.lookActive s.store 1)) =
+    some ([.inv 0 (.read 1)], .found ⟨1, 4, false, none, ⟨2, 2⟩⟩) := by decide
+example : (ConcRW.runSched (nlSched.take 18) (ConcRW.init nlSt nlOps)).map
+      (fun s => (s.trace.length, ConcRW.lookClosed s.store 1 .notFound)) = some (9, .deleted 5) := by decide
+example : (ReadResult.found ⟨1, 4, false, none, ⟨2, 2⟩⟩ : ReadResult Rec).latest (.deleted 5) = .deleted 5 := by
+  decide
+-- `read_interval` and `read_upper_bound` applied to that run, every hypothesis discharged
+example (s : CState) (h : ConcRW.runSched nlSched (ConcRW.init nlSt nlOps) = some s) :
+    ∃ (s1 s2 : CState), ConcRW.Reach s1 s2 ∧ ConcRW.Reach s2 s ∧
+      ReadResult.deleted 5 =
+        (ConcRW.lookActive s1.store 1).latest (ConcRW.lookClosed s2.store 1 .notFound) ∧
+      ∃ q top, Wit s2.store 1 (.deleted 5) q ∧ Wit s2.store 1 (s2.store.read 1 none) top ∧
+        rankLe top q = true := by
+  have e : (ConcRW.runSched nlSched (ConcRW.init nlSt nlOps)).map
+      (fun s => s.clients[0]?.map (fun c => (c.op, decide (c.pc.weight = 0), ConcRW.respOf s 0))) =
+      some (some (.read 1, true, some (.value (.deleted 5)))) := by decide
+  rw [h] at e
+  simp only [Option.map_some, Option.some.injEq] at e
+  obtain ⟨c, hc, e⟩ := Option.map_eq_some_iff.1 e
+  simp only [Prod.mk.injEq, decide_eq_true_eq] at e
+  obtain ⟨e1, _, e3⟩ := e
+  obtain ⟨c', hc', hd⟩ := respOf_some e3
+  rw [hc] at hc'; cases hc'
+  obtain ⟨l1, l2, past, s1, s2, a1, a2, _, _, _, _, _, r12, r2s, _, _, _, _, _, _, hm, _, _, _, _, hub⟩ :=
+    read_interval nlSt_ok.1 nlSt_ok.2 (ConcRW.runSched_reach nlSched _ _ _ .refl h) hc e1 hd
+  obtain ⟨q, top, h1, h2, h3⟩ := hub (by simp)
+  exact ⟨s1, s2, r12, r2s, hm, q, top, h1, h2, h3⟩
+example (s : CState) (h : ConcRW.runSched nlSched (ConcRW.init nlSt nlOps) = some s) (s' : CState)
+    (h' : ConcRW.Reach s s') :
+    ∃ q top, Wit s'.store 1 (.deleted 5) q ∧ Wit s'.store 1 (s'.store.read 1 none) top ∧ rankLe top q = true := by
+  have e : (ConcRW.runSched nlSched (ConcRW.init nlSt nlOps)).map
+      (fun s => s.clients[0]?.map (fun c => (c.op, ConcRW.respOf s 0))) =
+      some (some (.read 1, some (.value (.deleted 5)))) := by decide
+  rw [h] at e
+  simp only [Option.map_some, Option.some.injEq] at e
+  obtain ⟨c, hc, e⟩ := Option.map_eq_some_iff.1 e
+  simp only [Prod.mk.injEq] at e
+  obtain ⟨c', hc', hd⟩ := respOf_some e.2
+  rw [hc] at hc'; cases hc'
+  obtain ⟨res, h1, h2, _⟩ := read_upper_bound nlSt_ok.1 nlSt_ok.2
+    (ConcRW.runSched_reach nlSched _ _ _ .refl h) hc e.1 hd
+  cases h1
+  obtain ⟨q, _, hq⟩ := h2 (by simp)
+  obtain ⟨top, g1, g2, g3, _⟩ := hq s' h'
+  exact ⟨q, top, g1, g2, g3⟩
+-- … and the sequential answer in that final store is `Found(ts 10)`, ranked above the marker the read returned
+example : (ConcRW.runSched nlSched (ConcRW.init nlSt nlOps)).map (fun s => s.store.read 1 none) =
+    some (.found (wrec 1 10 ⟨3, 3⟩)) := by decide
+-- `contains_interval` on the run `rwSchedNew` (client 2 probes key 2: `Found(7)`), every hypothesis discharged
+example (s : CState) (h : ConcRW.runSched rwSchedNew (ConcRW.init rwSt rwOps) = some s) :
+    ∃ (res : ReadResult Rec) (s1 s2 : CState), ReadResult.found 7 = res.map (·.ts) ∧ ConcRW.Reach s1 s2 ∧
+      ConcRW.Reach s2 s ∧
+      res = (ConcRW.lookActive s1.store 2).latest (ConcRW.lookClosed s2.store 2 .notFound) := by
+  have e : (ConcRW.runSched rwSchedNew (ConcRW.init rwSt rwOps)).map
+      (fun s => s.clients[2]?.map (fun c => (c.op, ConcRW.respOf s 2))) =
+      some (some (.contains 2, some (.has (.found 7)))) := by decide
+  rw [h] at e
+  simp only [Option.map_some, Option.some.injEq] at e
+  obtain ⟨c, hc, e⟩ := Option.map_eq_some_iff.1 e
+  simp only [Prod.mk.injEq] at e
+  obtain ⟨c', hc', hd⟩ := respOf_some e.2
+  rw [hc] at hc'; cases hc'
+  obtain ⟨res, _, _, _, s1, s2, _, g0, _, _, _, _, _, g6, g7, _, _, _, g11, _⟩ :=
+    contains_interval rwSt_ok.1 rwSt_ok.2 (ConcRW.runSched_reach rwSchedNew _ _ _ .refl h) hc e.1 hd
+  exact ⟨res, s1, s2, g0, g6, g7, g11⟩
+/-- `allow_duplicates = false`: the first write runs to its acknowledgement, then the second one is skipped -/
+def skSched : List ConcRW.Label := List.replicate 13 (.step 0) ++ List.replicate 6 (.step 1)
+example : (ConcRW.runSched skSched (ConcRW.init (Store.init false) dupOps)).map
+      (fun s => (ConcRW.respOf s 0, ConcRW.respOf s 1)) =
+    some (some (.wrote (some ⟨wrec 1 5 ⟨1, 1⟩, 0, 0⟩)), some (.wrote none)) := by decide
+-- `skipped_write_interval` on that run: the check found a live record of key 1
+example (s : CState) (h : ConcRW.runSched skSched (ConcRW.init (Store.init false) dupOps) = some s) :
+    ∃ (x : Rec) (s1 s2 : CState), ConcRW.Reach s1 s2 ∧ ConcRW.Reach s2 s ∧
+      ReadResult.found x = (ConcRW.lookActive s1.store 1).latest (ConcRW.lookClosed s2.store 1 .notFound) := by
+  have e : (ConcRW.runSched skSched (ConcRW.init (Store.init false) dupOps)).map
+      (fun s => s.clients[1]?.map (fun c => (c.op, ConcRW.respOf s 1))) =
+      some (some (.write 1 9 ⟨2, 2⟩, some (.wrote none))) := by decide
+  rw [h] at e
+  simp only [Option.map_some, Option.some.injEq] at e
+  obtain ⟨c, hc, e⟩ := Option.map_eq_some_iff.1 e
+  simp only [Prod.mk.injEq] at e
+  obtain ⟨c', hc', hd⟩ := respOf_some e.2
+  rw [hc] at hc'; cases hc'
+  obtain ⟨x, _, _, _, s1, s2, _, _, _, _, _, _, g6, g7, _, _, _, g11, _⟩ :=
+    skipped_write_interval (init_WF false) ⟨_, rfl⟩ (ConcRW.runSched_reach skSched _ _ _ .refl h) hc e.1 hd
+  exact ⟨x, s1, s2, g6, g7, g11⟩
+
+/-! ### two deletes whose phases cross (`delete_phase_race`), observationally -/
+
+open CrossDel (ObsEq crossedDel)
+
+/-- the trace of `delete_phase_race` — first phases in the order `i`, `j`, second phases in the order `j`, `i` —
+    replays to `crossedDel` -/
+theorem crossed_deletes_replay (st : Store) (i j : Nat) (k0 : Key) (ts0 : Nat) (o0 : Bool) (k1 : Key) (ts1 : Nat)
+    (o1 : Bool) :
+    ConcRW.replay st [.delC i k0 ts0, .delC j k1 ts1, .delA j k1 ts1 o1, .delA i k0 ts0 o0] =
+      crossedDel st k0 ts0 o0 k1 ts1 o1 := rfl
+
+/-- C08/R7 (`crossed_deletes_observational`): YES.  For EVERY well-formed store with an active blob and every pair
+    of deletes (any keys, timestamps, `only_if_presented` flags), the store left by the crossed schedule — active
+    phase of delete 0, active phase of delete 1, closed phase of delete 1, closed phase of delete 0 — is
+    OBSERVATIONALLY equal to the store of one of the two sequential orders: `read`, `contains`,
+    `read_all_with_deletion_marker` and `read_all` answer the same for every key (`CrossDel.ObsEq`), although the
+    stores themselves differ from both (`delete_phase_race`) and the returned counts match neither.
+
+    Which order: with different keys, both.  With one key: the order 0;1 whenever the active blob ends up with a marker
+    at least as new as both deletes' timestamps (then everything the orders disagree on lies behind that marker:
+    `CrossDel.cut_sort_invisible`); otherwise delete 1 is the newer one and found the key already dead in the active
+    blob, and the answer depends on whether a closed blob visited before the first disputed one carries a marker as new
+    as delete 1 (`CrossDel.cross_claim`). -/
+theorem crossed_deletes_observational {s : Store} (hwf : s.WF) (ha : ∃ a, s.active = some a)
+    (k0 : Key) (ts0 : Nat) (o0 : Bool) (k1 : Key) (ts1 : Nat) (o1 : Bool) :
+    ObsEq (crossedDel s k0 ts0 o0 k1 ts1 o1) ((s.delete k0 ts0 none o0).1.delete k1 ts1 none o1).1 ∨
+    ObsEq (crossedDel s k0 ts0 o0 k1 ts1 o1) ((s.delete k1 ts1 none o1).1.delete k0 ts0 none o0).1 :=
+  CrossDel.crossed_obs hwf ha k0 ts0 o0 k1 ts1 o1
+
+/-- … in terms of `Spec`: the two histories give the same `Spec.latest` and `Spec.allCut` records for every key -/
+theorem crossed_deletes_spec {s : Store} (hwf : s.WF) (ha : ∃ a, s.active = some a)
+    (k0 : Key) (ts0 : Nat) (o0 : Bool) (k1 : Key) (ts1 : Nat) (o1 : Bool) :
+    ∃ seq : Store, (seq = ((s.delete k0 ts0 none o0).1.delete k1 ts1 none o1).1 ∨
+        seq = ((s.delete k1 ts1 none o1).1.delete k0 ts0 none o0).1) ∧
+      ∀ k, (Spec.latest (crossedDel s k0 ts0 o0 k1 ts1 o1).history k).map (·.r) =
+          (Spec.latest seq.history k).map (·.r) ∧
+        (Spec.allCut (crossedDel s k0 ts0 o0 k1 ts1 o1).history k).map (·.r) =
+          (Spec.allCut seq.history k).map (·.r) ∧
+        (Spec.allLive (crossedDel s k0 ts0 o0 k1 ts1 o1).history k).map (·.r) =
+          (Spec.allLive seq.history k).map (·.r) := by
+  have hwX := CrossDel.crossedDel_wf hwf ha k0 ts0 o0 k1 ts1 o1
+  obtain ⟨w0, a0⟩ := CrossDel.wf_delete hwf ha k0 ts0 o0
+  have hw01 := (CrossDel.wf_delete w0 a0 k1 ts1 o1).1
+  obtain ⟨w1, a1⟩ := CrossDel.wf_delete hwf ha k1 ts1 o1
+  have hw10 := (CrossDel.wf_delete w1 a1 k0 ts0 o0).1
+  rcases crossed_deletes_observational hwf ha k0 ts0 o0 k1 ts1 o1 with h | h
+  · refine ⟨_, Or.inl rfl, fun k => ?_⟩
+    obtain ⟨h1, _, h3, h4⟩ := h k
+    exact ⟨by rw [← read_eq_spec hwX, ← read_eq_spec hw01, h1],
+      by rw [← readAllMarked_eq_spec hwX, ← readAllMarked_eq_spec hw01, h3],
+      by rw [← readAll_eq_spec hwX, ← readAll_eq_spec hw01, h4]⟩
+  · refine ⟨_, Or.inr rfl, fun k => ?_⟩
+    obtain ⟨h1, _, h3, h4⟩ := h k
+    exact ⟨by rw [← read_eq_spec hwX, ← read_eq_spec hw10, h1],
+      by rw [← readAllMarked_eq_spec hwX, ← readAllMarked_eq_spec hw10, h3],
+      by rw [← readAll_eq_spec hwX, ← readAll_eq_spec hw10, h4]⟩
+
+theorem delSt_ok : delSt.WF ∧ ∃ a, delSt.active = some a := ⟨run_WF true _, _, rfl⟩
+
+/-- … applied to `delete_phase_race`: the store that schedule ends in differs from both sequential stores, and is
+    observationally equal to one of them (here, concretely, to both: every order leaves `Deleted(10)`) -/
+theorem delete_phase_race_observational (s : CState)
+    (h : ConcRW.runSched delSched (ConcRW.init delSt delOps) = some s) :
+    s.store = crossedDel delSt 1 10 true 1 3 true ∧
+    (ObsEq s.store ((delSt.delete 1 10 none true).1.delete 1 3 none true).1 ∨
+      ObsEq s.store ((delSt.delete 1 3 none true).1.delete 1 10 none true).1) := by
+  have hr := ConcRW.runSched_reach delSched _ _ _ .refl h
+  have e : (ConcRW.runSched delSched (ConcRW.init delSt delOps)).map (fun s => ConcRW.muts s.trace) =
+      some [.delA 0 1 10 true, .delA 1 1 3 true, .delC 1 1 3, .delC 0 1 10] := by decide
+  rw [h] at e
+  simp only [Option.map_some, Option.some.injEq] at e
+  have hs : s.store = crossedDel delSt 1 10 true 1 3 true := by
+    rw [(store_eq_replay delSt_ok.1 delSt_ok.2 hr).1, ConcRW.replay_eq_muts, e]
+    rfl
+  refine ⟨hs, ?_⟩
+  rw [hs]
+  exact crossed_deletes_observational delSt_ok.1 delSt_ok.2 1 10 true 1 3 true
+
+-- non-vacuity, by evaluation: the crossed store, the two sequential stores, and what a reader sees of key 1
+example : (crossedDel delSt 1 10 true 1 3 true).history =
+    [(0, [wrec 1 5 ⟨1, 1⟩, ConcBytes.dmark 1 3, ConcBytes.dmark 1 10]), (1, [wrec 1 5 ⟨2, 2⟩, ConcBytes.dmark 1 10])] := by
+  decide
+example : ((delSt.delete 1 10 none true).1.delete 1 3 none true).1.history =
+    [(0, [wrec 1 5 ⟨1, 1⟩, ConcBytes.dmark 1 10]), (1, [wrec 1 5 ⟨2, 2⟩, ConcBytes.dmark 1 10])] := by decide
+example : ((delSt.delete 1 3 none true).1.delete 1 10 none true).1.history =
+    [(0, [wrec 1 5 ⟨1, 1⟩, ConcBytes.dmark 1 3, ConcBytes.dmark 1 10]),
+     (1, [wrec 1 5 ⟨2, 2⟩, ConcBytes.dmark 1 3, ConcBytes.dmark 1 10])] := by decide
+example : [(crossedDel delSt 1 10 true 1 3 true).readAllMarked 1,
+      ((delSt.delete 1 10 none true).1.delete 1 3 none true).1.readAllMarked 1,
+      ((delSt.delete 1 3 none true).1.delete 1 10 none true).1.readAllMarked 1] =
+    [[ConcBytes.dmark 1 10], [ConcBytes.dmark 1 10], [ConcBytes.dmark 1 10]] := by decide
+-- a case in which only ONE order matches: three blobs (0, 1 closed; 2 active), each holding key 1 @ ts 5; delete 0
+-- has ts 10, delete 1 has ts 20.  Crossed: the active blob gets marker 10 from delete 0, after which the key is dead
+-- there and delete 1 adds nothing; the closed blobs get marker 20 from delete 1, after which delete 0 adds nothing.
+-- A reader sees `Deleted(20)` — as after the order 1;0 (marker 20 everywhere); the order 0;1 leaves marker 10
+-- everywhere and shows `Deleted(10)`
+def xSt : Store := (Store.init true).run [.write 1 5 none ⟨1, 1⟩, .replaceActive, .write 1 5 none ⟨2, 2⟩,
+  .replaceActive, .write 1 5 none ⟨3, 3⟩]
+example : [(crossedDel xSt 1 10 true 1 20 true).readAllMarked 1,
+      ((xSt.delete 1 10 none true).1.delete 1 20 none true).1.readAllMarked 1,
+      ((xSt.delete 1 20 none true).1.delete 1 10 none true).1.readAllMarked 1] =
+    [[ConcBytes.dmark 1 20], [ConcBytes.dmark 1 10], [ConcBytes.dmark 1 20]] := by decide
+example : xSt.WF ∧ ∃ a, xSt.active = some a := ⟨run_WF true _, _, rfl⟩
+example : ObsEq (crossedDel xSt 1 10 true 1 20 true) ((xSt.delete 1 10 none true).1.delete 1 20 none true).1 ∨
+    ObsEq (crossedDel xSt 1 10 true 1 20 true) ((xSt.delete 1 20 none true).1.delete 1 10 none true).1 :=
+  crossed_deletes_observational (run_WF true _) ⟨_, rfl⟩ 1 10 true 1 20 true
+-- … and it is the second alternative that holds here: the first one is refuted by key 1
+example : ¬ ObsEq (crossedDel xSt 1 10 true 1 20 true) ((xSt.delete 1 10 none true).1.delete 1 20 none true).1 := by
+  intro h
+  have := (h 1).2.2.1
+  revert this
+  decide
+
+/-! ### `read_all` under concurrency
+
+`Storage::read_all_with_deletion_marker` is not an operation of `Pearl.ConcRW`, but it has the shape of `read`: one
+shared guard of the storage lock over both phases, the active blob listed under a temporary `ablob.read()`, then the
+closed blobs under `blobs.read()`.  It changes nothing, so a run of it is a pair of instants `s1` (active blob listed)
+and `s2` (closed blobs listed) of a run of the other clients with no rotation in between; what it returns is
+`read_all_with_deletion_marker` of the hybrid store `hyb s2.store a1`. -/
+
+/-- C08/R8 (`read_all_concurrent`): `read_all_with_deletion_marker k` whose two phases fall on the instants `s1`,
+    `s2` (no rotation in between: it holds the storage lock shared) returns
+    1. the `Spec` list (rank order, cut behind the first marker) of the hybrid history;
+    2. PROVENANCE: only records of key `k` that the store holds at instant 2, and every listed non-marker has its
+       bytes in the file and was in the starting store or is the record `wrec k ts d` pushed by a `write k ts d`
+       client;
+    3. FRESHNESS, for every listed version: every record of the key that the store held at instant 1 — in
+       particular the record of every write acknowledged before — is listed at its place, unless the list ends in a
+       marker that is ranked above it. -/
+theorem read_all_concurrent {st : Store} {ops : List COp} {s1 s2 : CState} (hwf : st.WF)
+    (ha : ∃ a, st.active = some a) (r1 : ConcRW.Reach (ConcRW.init st ops) s1) (r12 : ConcRW.Reach s1 s2)
+    {l2 : List Ev} (ht : s2.trace = l2 ++ s1.trace) (hnr : Ev.rot ∉ l2) {a1 : Blob}
+    (ha1 : s1.store.active = some a1) (k : Key) :
+    (ConcRW.hyb s2.store a1).readAllMarked k =
+        (Spec.allCut (ConcRW.hyb s2.store a1).history k).map (·.r) ∧
+    (∀ q ∈ Spec.allCut (ConcRW.hyb s2.store a1).history k,
+      q.r.key = k ∧ q ∈ History.positioned s2.store.history ∧
+        (q.r.del = false → q.r ∈ s2.landed ∧ (InStore st q.r ∨
+          ∃ j ts d, ops[j]? = some (COp.write k ts d) ∧ q.r = wrec k ts d ∧ Ev.push j q.r ∈ s2.trace))) ∧
+    (∀ p ∈ History.positioned s1.store.history, p.r.key = k →
+      p ∈ Spec.allCut (ConcRW.hyb s2.store a1).history k ∨
+        ∃ d ∈ Spec.allCut (ConcRW.hyb s2.store a1).history k, d.r.del = true ∧ rankBefore d p = true) ∧
+    (∀ w p, Ev.res w (.wrote (some p)) ∈ s1.trace → p ∈ History.positioned s1.store.history) := by
+  obtain ⟨a, ha⟩ := ha
+  obtain ⟨hi1, ht1⟩ := ConcRW.tinv_reach hwf ha r1
+  obtain ⟨hi2, ht2⟩ := ConcRW.tinv_reach hwf ha (ConcRW.reach_trans r1 r12)
+  obtain ⟨a2, ha2, hble, hsub⟩ := ConcRW.norot_reach hi1 r12 l2 ht hnr a1 ha1
+  have hwfh : (ConcRW.hyb s2.store a1).WF := ConcRW.hyb_wf hi2.wf ha2 hble.1.symm
+  have hsub2 : ConcRW.Sub (ConcRW.hyb s2.store a1) s2.store := ConcRW.hyb_sub_self ha2 hble
+  have hsorted := Spec.all_sorted (ConcRW.hyb s2.store a1).history k hwfh.history_nodup
+  have hmem : ∀ p, p ∈ Spec.all (ConcRW.hyb s2.store a1).history k ↔
+      p ∈ History.positioned (ConcRW.hyb s2.store a1).history ∧ p.r.key = k := by
+    intro p
+    rw [Spec.all_eq_sortedBy, mem_sortedBy]
+    simp
+  refine ⟨readAllMarked_eq_spec hwfh k, ?_, ?_, ?_⟩
+  · intro q hq
+    obtain ⟨hq1, hq2⟩ := (hmem q).1 ((cut_sublist _).subset hq)
+    have hq3 := hsub2 q hq1
+    refine ⟨hq2, hq3, fun hd => ?_⟩
+    have hin := ConcRW.inStore_of_positioned hq3
+    refine ⟨hi2.landed _ hin hd, ?_⟩
+    rcases ht2.prov _ hin hd with h1 | ⟨j, h1⟩
+    · exact Or.inl h1
+    · obtain ⟨k', ts, d, h2, h3⟩ := ht2.push j _ h1
+      have : k' = k := by rw [h3] at hq2; exact hq2
+      subst this
+      exact Or.inr ⟨j, ts, d, h2, h3, h1⟩
+  · intro p hp hk
+    have hpa : p ∈ Spec.all (ConcRW.hyb s2.store a1).history k := (hmem p).2 ⟨hsub p hp, hk⟩
+    by_cases hc : p ∈ Spec.allCut (ConcRW.hyb s2.store a1).history k
+    · exact Or.inl hc
+    · right
+      have hex : ∃ d ∈ Spec.all (ConcRW.hyb s2.store a1).history k, d.r.del = true ∧ rankBefore d p = true := by
+        apply Classical.byContradiction
+        intro hno
+        apply hc
+        refine (mem_cut_iff hsorted).2 ⟨hpa, fun d hd hdd hb => hno ⟨d, hd, hdd, hb⟩⟩
+      obtain ⟨d, hd, hdd, hbefore⟩ := hex
+      obtain ⟨d', hd'cut, hd'del, hd'⟩ := exists_del_cut hsorted hd hdd
+      refine ⟨d', hd'cut, hd'del, ?_⟩
+      rcases hd' with rfl | h
+      · exact hbefore
+      · exact rankBefore_trans h hbefore
+  · intro w p hack
+    obtain ⟨c, hc, hd⟩ := ht1.res w _ hack
+    exact (ConcRW.done_respOK hi1 hc hd).1
+
+-- non-vacuity on the schedule of `read_not_linearizable_with_delete`: instant 1 after 2 steps, instant 2 after 18
+-- steps (the write and the delete lie in between, no rotation): the list is `[marker 5]` — the hybrid history
+-- holds the marker of the closed blob and, of the active blob, only the record @ ts 4 below it
+example : (ConcRW.runSched (nlSched.take 2) (ConcRW.init nlSt nlOps)).bind (fun s1 =>
+      (ConcRW.runSched ((nlSched.take 18).drop 2) s1).bind (fun s2 =>
+        s1.store.active.map (fun a1 =>
+          (decide (s2.trace = s2.trace.take 8 ++ s1.trace ∧ Ev.rot ∉ s2.trace.take 8),
+            (ConcRW.hyb s2.store a1).readAllMarked 1, s2.store.readAllMarked 1)))) =
+    some (true, [ConcBytes.dmark 1 5], [wrec 1 10 ⟨3, 3⟩, ConcBytes.dmark 1 5]) := by decide
+-- `read_all_concurrent` applied to these two instants, every hypothesis discharged: the record @ ts 4 that the store
+-- held at instant 1 (blob 1, position 0) is listed or lies behind a listed marker
+example (s1 s2 : CState) (h1 : ConcRW.runSched (nlSched.take 2) (ConcRW.init nlSt nlOps) = some s1)
+    (h2 : ConcRW.runSched ((nlSched.take 18).drop 2) s1 = some s2) (a1 : Blob) (ha1 : s1.store.active = some a1) :
+    (⟨⟨1, 4, false, none, ⟨2, 2⟩⟩, 1, 0⟩ : PRec) ∈ Spec.allCut (ConcRW.hyb s2.store a1).history 1 ∨
+      ∃ d ∈ Spec.allCut (ConcRW.hyb s2.store a1).history 1, d.r.del = true ∧
+        rankBefore d ⟨⟨1, 4, false, none, ⟨2, 2⟩⟩, 1, 0⟩ = true := by
+  have r1 := ConcRW.runSched_reach _ _ _ _ .refl h1
+  have r12 := ConcRW.runSched_reach _ _ _ _ .refl h2
+  have e : (ConcRW.runSched (nlSched.take 2) (ConcRW.init nlSt nlOps)).bind (fun s1 =>
+      (ConcRW.runSched ((nlSched.take 18).drop 2) s1).map (fun s2 =>
+        (decide (s2.trace = s2.trace.take 8 ++ s1.trace ∧ Ev.rot ∉ s2.trace.take 8),
+          decide ((⟨⟨1, 4, false, none, ⟨2, 2⟩⟩, 1, 0⟩ : PRec) ∈ History.positioned s1.store.history)))) =
+      some (true, true) := by decide
+  rw [h1] at e
+  simp only [Option.bind_some, h2, Option.map_some, Option.some.injEq, Prod.mk.injEq, decide_eq_true_eq] at e
+  exact (read_all_concurrent nlSt_ok.1 nlSt_ok.2 r1 r12 e.1.1 e.1.2 ha1 1).2.2.1 _ e.2 rfl
+
+/-! ### the product with the byte ranges (`Pearl.ConcBytes`, `Pearl/Model/ConcBytes.lean`)
+
+`Pearl.ConcRW` says "the bytes of `r` are in the file" (`landed`); `Pearl.Append` says which bytes a `fetch_add`
+hands out.  The product gives every byte-producing step of `Pearl.ConcRW` its `Pearl.Append` meaning: the
+`wBlob → wReserved` step of a write is `size.fetch_add(Fs.recLen klen r)` on the file of the active (= landing) blob,
+`wReserved → wWritten` is `write_all_at` into that range, and the marker phases of a delete reserve and fill
+`Fs.recLen klen marker` bytes per marked blob. -/
+
+open ConcBytes (BState BReach binit brun Alloc sizeOf)
+
+/-- C08/B1 (`landed_ranges_disjoint`): in every reachable state of the product, for every schedule, any number of
+    clients, any key length:
+    1. the byte ranges of ALL reservations of one blob file — landed records (`written`), in-flight records (not
+       yet `written`), markers — are pairwise disjoint; more precisely they lie one after the other in the order of
+       the `fetch_add`s;
+    2. each starts at or above the length the file had initially (the records the store started with are never
+       touched), ends at or below the file's size counter, and has the length of its record;
+    3. the reservations not yet filled are exactly the writes in flight: each belongs to a client at `wReserved`,
+       and a client at `wReserved` has one, in the active blob, for its record;
+    4. every record `Pearl.ConcRW` calls `landed` was in the starting store or has a FILLED range;
+    5. every byte of a filled range carries the mark of the client that filled it, and every written byte lies in a
+       filled range of its writer: nobody writes outside what it reserved. -/
+theorem landed_ranges_disjoint {klen : Nat} {st : Store} {ops : List COp} {b : BState} (hwf : st.WF)
+    (ha : ∃ a, st.active = some a) (hr : BReach klen (binit klen st ops) b) :
+    b.y.allocs.Pairwise (fun x z => x.blob = z.blob → z.rng.stop ≤ x.rng.off ∧ x.rng.Disjoint z.rng) ∧
+    (∀ x ∈ b.y.allocs, sizeOf klen st x.blob ≤ x.rng.off ∧ x.rng.stop ≤ b.y.size x.blob ∧
+      x.rng.len = Fs.recLen klen x.r) ∧
+    (∀ x ∈ b.y.allocs, x.written = false → ∃ c, b.c.clients[x.client]? = some c ∧ c.pc = .wReserved) ∧
+    (∀ i c, b.c.clients[i]? = some c → c.pc = .wReserved →
+      ∃ x ∈ b.y.allocs, x.client = i ∧ x.written = false ∧ (∃ a, b.c.store.active = some a ∧ x.blob = a.id) ∧
+        ∃ k ts d, c.op = .write k ts d ∧ x.r = wrec k ts d) ∧
+    (∀ r ∈ b.c.landed, InStore st r ∨ ∃ x ∈ b.y.allocs, x.written = true ∧ x.r = r) ∧
+    (∀ x ∈ b.y.allocs, x.written = true → ∀ o, x.rng.off ≤ o → o < x.rng.stop →
+      b.y.file x.blob o = some x.client) ∧
+    (∀ bl o i, b.y.file bl o = some i → ∃ x ∈ b.y.allocs, x.client = i ∧ x.blob = bl ∧ x.written = true ∧
+      x.rng.off ≤ o ∧ o < x.rng.stop) := by
+  obtain ⟨a, ha⟩ := ha
+  have hp := ConcBytes.pinv_reach hwf ha hr
+  have hb := ConcRW.binv_reach (ConcBytes.breach_reach hr)
+  refine ⟨hp.ok.sorted.imp (fun h hb => ⟨h hb, Or.inr (h hb)⟩),
+    fun x hx => ⟨hp.ok.base x hx, hp.ok.bound x hx, hp.len x hx⟩, hp.inflight, ?_, hp.landed, hp.ok.intact,
+    hp.ok.own⟩
+  intro i c hc hpc
+  obtain ⟨x, hx, g1, g2, g3, g4⟩ := (hp.client i c hc).1 hpc
+  have ht := hb.typed c (List.mem_of_getElem? hc)
+  unfold ConcRW.Typed at ht
+  rw [hpc] at ht
+  obtain ⟨k, ts, d, hop⟩ := ht
+  exact ⟨x, hx, g1, g2, g3, k, ts, d, hop, g4 k ts d hop⟩
+
+/-- C08/B2 (`acked_range_never_rewritten`): a write acknowledged with place `p` owns a filled range of
+    `Fs.recLen klen p.r` bytes in the file of blob `p.blob`, and in EVERY later state that range is still its
+    reservation, every byte of it still carries its mark, and every other reservation of that file — whoever makes it,
+    whenever — is disjoint from it: an acknowledged record's bytes are never written again. -/
+theorem acked_range_never_rewritten {klen : Nat} {st : Store} {ops : List COp} {b : BState} (hwf : st.WF)
+    (ha : ∃ a, st.active = some a) (hr : BReach klen (binit klen st ops) b)
+    {i : Nat} {p : PRec} (hack : Ev.res i (.wrote (some p)) ∈ b.c.trace) :
+    ∃ x ∈ b.y.allocs, x.client = i ∧ x.blob = p.blob ∧ x.r = p.r ∧ x.written = true ∧
+      x.rng.len = Fs.recLen klen p.r ∧ sizeOf klen st p.blob ≤ x.rng.off ∧
+      ∀ b', BReach klen b b' →
+        x ∈ b'.y.allocs ∧ x.rng.stop ≤ b'.y.size p.blob ∧
+        (∀ o, x.rng.off ≤ o → o < x.rng.stop → b'.y.file p.blob o = some i) ∧
+        ∀ z ∈ b'.y.allocs, z ≠ x → z.blob = p.blob → x.rng.Disjoint z.rng := by
+  obtain ⟨a, ha⟩ := ha
+  have hreach := ConcBytes.breach_reach hr
+  have hp := ConcBytes.pinv_reach hwf ha hr
+  obtain ⟨_, ht⟩ := ConcRW.tinv_reach hwf ha hreach
+  obtain ⟨c, hc, hd⟩ := ht.res i _ hack
+  obtain ⟨x, hx, g1, g2, g3, g4⟩ := (hp.client i c hc).2.2 p (by rw [hd]; rfl)
+  refine ⟨x, hx, g1, g3, g4, g2, by rw [hp.len x hx, g4], by rw [← g3]; exact hp.ok.base x hx, ?_⟩
+  intro b' hr'
+  have hp' := ConcBytes.pinv_reach hwf ha (ConcBytes.breach_trans hr hr')
+  have hx' := ConcBytes.breach_written hr' x hx g2
+  refine ⟨hx', by rw [← g3]; exact hp'.ok.bound x hx', ?_, ?_⟩
+  · intro o h1 h2
+    rw [← g3, ← g1]
+    exact hp'.ok.intact x hx' g2 o h1 h2
+  · intro z hz hne hzb
+    rcases ConcBytes.pairwise_forall hp'.ok.sorted x hx' z hz (Ne.symm hne) with h | h
+    · exact Or.inr (h (by rw [g3, hzb]))
+    · exact Or.inl (h (by rw [g3, hzb]))
+
+-- non-vacuity: the schedule of `read_not_linearizable_with_delete` at key length 4 — a write of 72 bytes and two
+-- markers of 69 bytes; blob file 1 was 91 bytes long: the record at [91, 163), the marker at [163, 232); blob file 0
+-- was 90 bytes long: the marker at [90, 159)
+example : (brun 4 nlSched (binit 4 nlSt nlOps)).map
+      (fun b => (b.y.allocs, b.y.size 0, b.y.size 1, sizeOf 4 nlSt 0, sizeOf 4 nlSt 1)) =
+    some ([⟨2, 0, ⟨90, 69⟩, ConcBytes.dmark 1 5, true⟩, ⟨2, 1, ⟨163, 69⟩, ConcBytes.dmark 1 5, true⟩,
+           ⟨1, 1, ⟨91, 72⟩, wrec 1 10 ⟨3, 3⟩, true⟩], 159, 232, 90, 91) := by decide
+example : (brun 4 nlSched (binit 4 nlSt nlOps)).map
+      (fun b => [b.y.file 1 90, b.y.file 1 91, b.y.file 1 162, b.y.file 1 163, b.y.file 1 231, b.y.file 1 232,
+                 b.y.file 0 89, b.y.file 0 90]) =
+    some [none, some 1, some 1, some 2, some 2, none, none, some 2] := by decide
+-- an in-flight reservation: after 7 steps the writer (client 1) has reserved and not yet written
+example : (brun 4 (nlSched.take 7) (binit 4 nlSt nlOps)).map
+      (fun b => (b.y.allocs, b.c.clients.map (fun c => decide (c.pc.weight = 9)), b.y.file 1 91)) =
+    some ([⟨1, 1, ⟨91, 72⟩, wrec 1 10 ⟨3, 3⟩, false⟩], [false, true, false], none) := by decide
+-- `landed_ranges_disjoint` applied to the state with the write in flight: the reservation is the client's, in the
+-- active blob, of the length of its record, above the 91 bytes the file had
+example (b : BState) (h : brun 4 (nlSched.take 7) (binit 4 nlSt nlOps) = some b) :
+    ∃ x ∈ b.y.allocs, x.client = 1 ∧ x.written = false ∧ x.r = wrec 1 10 ⟨3, 3⟩ ∧ 91 ≤ x.rng.off ∧
+      x.rng.len = 72 ∧ x.rng.stop ≤ b.y.size x.blob := by
+  have hr := ConcBytes.brun_reach 4 _ _ _ _ .refl h
+  have e : (brun 4 (nlSched.take 7) (binit 4 nlSt nlOps)).map
+      (fun b => b.c.clients[1]?.map (fun c => (c.op, decide (c.pc.weight = 9)))) =
+      some (some (.write 1 10 ⟨3, 3⟩, true)) := by decide
+  rw [h] at e
+  simp only [Option.map_some, Option.some.injEq] at e
+  obtain ⟨c, hc, e⟩ := Option.map_eq_some_iff.1 e
+  simp only [Prod.mk.injEq, decide_eq_true_eq] at e
+  have hpc : c.pc = .wReserved := by
+    cases hp : c.pc <;> simp [hp, ConcRW.Pc.weight] at e
+    rfl
+  obtain ⟨_, h2, _, h4, _⟩ := landed_ranges_disjoint nlSt_ok.1 nlSt_ok.2 hr
+  obtain ⟨x, hx, g1, g2, ⟨a, ga, gb⟩, k, ts, d, gop, gr⟩ := h4 1 c hc hpc
+  rw [e.1] at gop; cases gop
+  obtain ⟨f1, f2, f3⟩ := h2 x hx
+  have hblob : (brun 4 (nlSched.take 7) (binit 4 nlSt nlOps)).map (fun b => b.c.store.active.map (·.id)) =
+      some (some 1) := by decide
+  rw [h] at hblob
+  simp only [Option.map_some, Option.some.injEq, ga] at hblob
+  have hb1 : x.blob = 1 := by rw [gb]; exact hblob
+  refine ⟨x, hx, g1, g2, gr, ?_, by rw [f3, gr]; decide, f2⟩
+  have : sizeOf 4 nlSt 1 = 91 := by decide
+  rw [hb1, this] at f1
+  exact f1
+-- `acked_range_never_rewritten` applied to the full run, every hypothesis discharged
+example (b : BState) (h : brun 4 nlSched (binit 4 nlSt nlOps) = some b) (b' : BState) (h' : BReach 4 b b') :
+    ∃ x : Alloc, x.rng.len = 72 ∧ x ∈ b'.y.allocs ∧
+      (∀ o, x.rng.off ≤ o → o < x.rng.stop → b'.y.file 1 o = some 1) := by
+  have e : (brun 4 nlSched (binit 4 nlSt nlOps)).map
+      (fun b => decide (Ev.res 1 (.wrote (some ⟨wrec 1 10 ⟨3, 3⟩, 1, 1⟩)) ∈ b.c.trace)) = some true := by decide
+  rw [h] at e
+  simp only [Option.map_some, Option.some.injEq, decide_eq_true_eq] at e
+  obtain ⟨x, _, _, _, _, _, h5, _, h7⟩ := acked_range_never_rewritten nlSt_ok.1 nlSt_ok.2
+    (ConcBytes.brun_reach 4 nlSched _ _ _ .refl h) e
+  obtain ⟨g1, _, g3, _⟩ := h7 b' h'
+  exact ⟨x, by rw [h5]; decide, g1, g3⟩
+
+/-- C08/B3 (`ranges_follow_layout`): the offsets the `fetch_add`s hand out are the offsets of the sequential file
+    layout `Fs.contentLen` (`Pearl/Model/Fs.lean`: header, then the records one after the other).  In every reachable
+    state of the product:
+    1. the size counter of every closed blob file is `Fs.contentLen klen` of its records; that of the active blob
+       file is `Fs.contentLen klen` of its records plus `ConcBytes.pend`, the bytes of the write between its
+       `fetch_add` and its `index.push` — and `pend` is 0 when no client is there (at `wReserved` / `wWritten`);
+    2. a blob that does not exist yet has a file of `blobHeaderSize` bytes;
+    3. every reservation is PLACED — it starts at `Fs.contentLen klen (bl.recs.take n)` for a position `n` of its
+       blob `bl` that holds its record, and has that record's length — or it is the reservation of the write in
+       flight, which starts exactly where the active blob's records end;
+    4. when nobody is in flight — in particular in every quiescent state — every reservation is placed and every size
+       counter is the `Fs.contentLen` of its blob: the file the concurrent run builds is the file of the sequential
+       model. -/
+theorem ranges_follow_layout {klen : Nat} {st : Store} {ops : List COp} {b : BState} (hwf : st.WF)
+    (ha : ∃ a, st.active = some a) (hr : BReach klen (binit klen st ops) b) :
+    (∀ bl ∈ b.c.store.closed, b.y.size bl.id = Fs.contentLen klen bl.recs) ∧
+    (∀ a, b.c.store.active = some a →
+      b.y.size a.id = Fs.contentLen klen a.recs + ConcBytes.pend klen b.c.clients) ∧
+    (∀ id, b.c.store.nextId ≤ id → b.y.size id = blobHeaderSize) ∧
+    (∀ x ∈ b.y.allocs, x.rng.len = Fs.recLen klen x.r ∧
+      (ConcBytes.Placed klen b.c.store x ∨
+        ∃ c a, b.c.clients[x.client]? = some c ∧ (c.pc = .wReserved ∨ c.pc = .wWritten) ∧
+          b.c.store.active = some a ∧ x.blob = a.id ∧ x.rng.off = Fs.contentLen klen a.recs ∧
+          ∀ k ts d, c.op = .write k ts d → x.r = wrec k ts d)) ∧
+    ((∀ c ∈ b.c.clients, c.pc ≠ .wReserved ∧ c.pc ≠ .wWritten) →
+      (∀ bl ∈ b.c.store.blobs, b.y.size bl.id = Fs.contentLen klen bl.recs) ∧
+      ∀ x ∈ b.y.allocs, ConcBytes.Placed klen b.c.store x) := by
+  obtain ⟨a, ha⟩ := ha
+  have hl := ConcBytes.layinv_reach hwf ha hr
+  have hp := ConcBytes.pinv_reach hwf ha hr
+  refine ⟨hl.closed, hl.active, hl.fresh, fun x hx => ⟨hp.len x hx, hl.place x hx⟩, ?_⟩
+  intro hq
+  have h0 := ConcBytes.pend_zero (klen := klen) hq
+  refine ⟨?_, ?_⟩
+  · intro bl hbl
+    simp only [Store.blobs, List.mem_append, Option.mem_toList] at hbl
+    rcases hbl with hbl | hbl
+    · exact hl.closed bl hbl
+    · have := hl.active bl hbl
+      omega
+  · intro x hx
+    rcases hl.place x hx with h1 | ⟨c, _, h1, h2, _⟩
+    · exact h1
+    · have := hq c (List.mem_of_getElem? h1)
+      rcases h2 with h2 | h2
+      · exact absurd h2 this.1
+      · exact absurd h2 this.2
+
+-- non-vacuity: at the end of the run above nobody is in flight; blob file 1 holds 3 records in 232 bytes, and the
+-- acknowledged record (position 1 of blob 1) starts at `contentLen` of the one record before it
+example : (brun 4 nlSched (binit 4 nlSt nlOps)).map (fun b =>
+      (b.c.clients.map (fun c => decide (c.pc.weight = 0)),
+       b.c.store.blobs.map (fun bl => (bl.id, b.y.size bl.id, Fs.contentLen 4 bl.recs)),
+       Fs.contentLen 4 [⟨1, 4, false, none, ⟨2, 2⟩⟩])) =
+    some ([true, true, true], [(0, 159, 159), (1, 232, 232)], 91) := by decide
+-- `ranges_follow_layout` applied to the end of that run (nobody in flight), every hypothesis discharged
+example (b : BState) (h : brun 4 nlSched (binit 4 nlSt nlOps) = some b) :
+    (∀ bl ∈ b.c.store.blobs, b.y.size bl.id = Fs.contentLen 4 bl.recs) ∧
+      ∀ x ∈ b.y.allocs, ConcBytes.Placed 4 b.c.store x := by
+  have e : (brun 4 nlSched (binit 4 nlSt nlOps)).map
+      (fun b => decide (∀ c ∈ b.c.clients.map (fun c => c.pc.weight), c = 0)) = some true := by decide
+  rw [h] at e
+  simp only [Option.map_some, Option.some.injEq, decide_eq_true_eq, List.mem_map, forall_exists_index, and_imp,
+    forall_apply_eq_imp_iff₂] at e
+  refine (ranges_follow_layout nlSt_ok.1 nlSt_ok.2 (ConcBytes.brun_reach 4 nlSched _ _ _ .refl h)).2.2.2.2 ?_
+  intro c hc
+  have := e c hc
+  constructor <;> intro hp <;> rw [hp] at this <;> simp [ConcRW.Pc.weight] at this
+-- … and while the write is in flight (7 steps) the counter of the active blob file runs ahead of the index by the
+-- 72 bytes of that record
+example : (brun 4 (nlSched.take 7) (binit 4 nlSt nlOps)).map (fun b =>
+      (b.c.store.blobs.map (fun bl => (bl.id, b.y.size bl.id, Fs.contentLen 4 bl.recs)),
+       ConcBytes.pend 4 b.c.clients)) =
+    some ([(0, 90, 90), (1, 163, 91)], 72) := by decide
+
+/-- C08/B4 (`acked_range_at_place`): the bytes of an acknowledged write are exactly where the sequential file
+    layout puts its acknowledged place: in EVERY later state the blob `p.blob` holds `p.r` at position `p.seq`, and the
+    write's filled range is `[Fs.contentLen klen (records before position p.seq), + Fs.recLen klen p.r)` — the range
+    `Pearl.Fs` (C06) assigns to the `p.seq`-th record of that blob file. -/
+theorem acked_range_at_place {klen : Nat} {st : Store} {ops : List COp} {b : BState} (hwf : st.WF)
+    (ha : ∃ a, st.active = some a) (hr : BReach klen (binit klen st ops) b)
+    {i : Nat} {p : PRec} (hack : Ev.res i (.wrote (some p)) ∈ b.c.trace) :
+    ∃ x ∈ b.y.allocs, x.client = i ∧ x.written = true ∧ x.blob = p.blob ∧ x.r = p.r ∧
+      ∀ b', BReach klen b b' → x ∈ b'.y.allocs ∧
+        ∃ bl ∈ b'.c.store.blobs, bl.id = p.blob ∧ bl.recs[p.seq]? = some p.r ∧
+          x.rng = ⟨Fs.contentLen klen (bl.recs.take p.seq), Fs.recLen klen p.r⟩ := by
+  obtain ⟨a, ha⟩ := ha
+  have hreach := ConcBytes.breach_reach hr
+  have hp := ConcBytes.pinv_reach hwf ha hr
+  obtain ⟨_, ht⟩ := ConcRW.tinv_reach hwf ha hreach
+  obtain ⟨c, hc, hd⟩ := ht.res i _ hack
+  obtain ⟨x, hx, g1, g2, g3, g4⟩ := (hp.client i c hc).2.2 p (by rw [hd]; rfl)
+  refine ⟨x, hx, g1, g2, g3, g4, fun b' hr' => ?_⟩
+  have hr2 := ConcBytes.breach_trans hr hr'
+  have hx' := ConcBytes.breach_written hr' x hx g2
+  obtain ⟨_, ht'⟩ := ConcRW.tinv_reach hwf ha (ConcBytes.breach_reach hr2)
+  have hack' : Ev.res i (.wrote (some p)) ∈ b'.c.trace := by
+    obtain ⟨m, hm⟩ := ConcRW.reach_trace_ext (ConcBytes.breach_reach hr')
+    rw [hm]; exact List.mem_append_right _ hack
+  obtain ⟨c', hc', hd'⟩ := ht'.res i _ hack'
+  obtain ⟨_, bl, hbl, h1, h2, h3⟩ :=
+    (ConcBytes.seqinv_reach hwf ha hr2).seq i c' p hc' (by rw [hd']; rfl) x hx' g1
+  refine ⟨hx', bl, hbl, h1, h2, ?_⟩
+  have hlen := (ConcBytes.pinv_reach hwf ha hr2).len x hx'
+  cases hxr : x.rng with
+  | mk off len =>
+    rw [hxr] at h3 hlen
+    simp only at h3 hlen
+    rw [h3, hlen, g4]
+
+-- `acked_range_at_place` on the run above: the record acknowledged at blob 1, position 1 lies at
+-- `[contentLen [record @ ts 4], + 72) = [91, 163)`, in every later state
+example (b : BState) (h : brun 4 nlSched (binit 4 nlSt nlOps) = some b) (b' : BState) (h' : BReach 4 b b') :
+    ∃ bl ∈ b'.c.store.blobs, bl.id = 1 ∧ bl.recs[1]? = some (wrec 1 10 ⟨3, 3⟩) ∧
+      (⟨1, 1, ⟨Fs.contentLen 4 (bl.recs.take 1), 72⟩, wrec 1 10 ⟨3, 3⟩, true⟩ : Alloc) ∈ b'.y.allocs := by
+  have e : (brun 4 nlSched (binit 4 nlSt nlOps)).map
+      (fun b => decide (Ev.res 1 (.wrote (some ⟨wrec 1 10 ⟨3, 3⟩, 1, 1⟩)) ∈ b.c.trace)) = some true := by decide
+  rw [h] at e
+  simp only [Option.map_some, Option.some.injEq, decide_eq_true_eq] at e
+  obtain ⟨x, _, g1, g2, g3, g4, h7⟩ := acked_range_at_place nlSt_ok.1 nlSt_ok.2
+    (ConcBytes.brun_reach 4 nlSched _ _ _ .refl h) e
+  obtain ⟨hx', bl, hbl, k1, k2, k3⟩ := h7 b' h'
+  refine ⟨bl, hbl, k1, k2, ?_⟩
+  have : x = ⟨1, 1, ⟨Fs.contentLen 4 (bl.recs.take 1), 72⟩, wrec 1 10 ⟨3, 3⟩, true⟩ := by
+    cases x with
+    | mk cl blb rng r w =>
+      simp only at g1 g2 g3 g4 k3
+      subst g1 g2 g3 g4
+      rw [k3]
+      rfl
+  rw [← this]; exact hx'
+
 end C08
 end Pearl
 
 /-
 NOT YET PROVED (C08, read side)
 
-* Linearizability of `read`/`contains` when deletes run concurrently is false (`read_not_linearizable_with_delete`);
-  what holds with deletes is `read_fresh`/`read_returns_written` (the look-up is bounded below by the store at its
-  invocation).  A matching upper bound (the answer is not ranked above the first-ranked record of the store at its
-  response) is true of the model but not stated.
+* Linearizability of `read`/`contains` when deletes run concurrently is false (`read_not_linearizable_with_delete`),
+  and so is the regular-register property "the answer is the `Spec` answer of SOME store between invocation and
+  response" (`read_not_regular_with_delete`).  What holds is proved: `read_fresh`/`read_returns_written` (lower
+  bound: the store at the invocation), `read_upper_bound` (upper bound: the store at the response, and ever after),
+  and `read_interval` (each component look-up is the `Spec` answer of its component at its own instant inside the
+  interval; the answer is the `Spec` answer of the hybrid history; rank sandwich between the two instants).
+  The same window for `contains` and for the duplicate check of `write`: `contains_interval`,
+  `skipped_write_interval`.
 * `quiescent_equals_sequential` for crossing delete phases / duplicate-check races is false for store equality
-  (`delete_phase_race`, `duplicate_check_race`).  Not investigated: whether the crossed-delete store is
-  observationally equal (same `Spec` answers for every key) to some sequential order; the returned counts are not.
-* `read_with` / `write_with` / `delete_with` (metadata), `read_all`, `read_all_with_deletion_marker` under
-  concurrency are not modelled (the sequential versions are C02).
+  (`delete_phase_race`, `duplicate_check_race`).  For two crossed deletes the store IS observationally equal to one of
+  the two sequential orders (`crossed_deletes_observational`, all stores / keys / timestamps / flags); the returned
+  counts are not.  Not proved: the generalisation to more than two overlapping deletes, and to deletes crossed with
+  writes of the same key between the phases (the combinatorial core `CrossDel.cross_summaries` is for two deletes and
+  nothing in between).  The duplicate-check race is observable (`duplicate_check_race`: `read_all` lists two records).
+* `read_with` / `write_with` / `delete_with` (metadata) under concurrency are not modelled (the sequential versions
+  are C02).  `read_all` / `read_all_with_deletion_marker` are not operations of the transition system
+  `Pearl.ConcRW`; `read_all_concurrent` treats a run of them as a pair of instants of a run of the other clients
+  (sound because they change nothing and hold the storage lock shared), and does not cover their data loads
+  (`Entry::load` of every listed entry happens after the listing; a listed live record has its bytes in the file
+  already: clause 2).
 * The model assumes an active blob throughout (no concurrent `close_active_blob` / `restore_active_blob`), no I/O
   errors, and filters that are transparent (C10) and updated before a header becomes visible (`IndexStruct::push`
   adds the key to the filter before inserting, under the index write lock).
 * `client_progress` is a safety-style progress statement (some enabled step exists); fairness of tokio's scheduler
   and of `async_lock::RwLock` is not modelled.  The storage lock's writer preference and the worker channel are
   the subject of `no_deadlock` (first half), not of `Pearl.ConcRW`, where rotation is one atomic step.
-* Byte offsets: `Pearl.ConcRW` tracks only "the bytes of `r` are in the file" (`landed`); disjointness of the
-  reserved ranges is `ranges_disjoint_interleaved` in `Pearl.Append` and the two models are not composed.
+* Byte offsets: the product `Pearl.ConcBytes` composes `Pearl.ConcRW` with the `fetch_add` discipline of
+  `Pearl.Append` (`landed_ranges_disjoint`, `acked_range_never_rewritten`) and with the sequential file layout of
+  `Pearl.Fs` (`ranges_follow_layout`: size counters = `Fs.contentLen` + the write in flight; every reservation sits
+  at `Fs.contentLen` of a prefix of its blob that ends just before a copy of its record).  for an acknowledged write the position is
+  its acknowledged place: `acked_range_at_place`).  Not proved there: the same pinning for the markers of deletes
+  (a delete's response carries no place; `LayInv.place` says "a position holding that marker"); two-pass writes (`Fs.recWrites`: header and data as two
+  `write_all_at` calls into the one reserved range) are one `land` step; the ranges of the records the store
+  started with are not reservations (they lie below `sizeOf klen st`, which every reservation respects).
 -/
